@@ -318,7 +318,7 @@ namespace plan
     if (objects)
       w.add("inst", 12), w.add("ovar", 8), w.add("oeq", 8), w.add("enumv", 3), w.add("eeq", 4);
     if (causal)
-      w.add("goal", 10), w.add("fact", 8), w.add("disj", prop == "C02" || prop == "C03" ? 5 : 2);
+      w.add("goal", 10), w.add("fact", 8), w.add("disj", prop == "C02" || prop == "C03" || prop == "C19" ? 5 : 2);
     if (sv)
       w.add("svinst", 5), w.add("goal", 8), w.add("fact", 6), w.add("horizon", 2), w.add("ovar", 2);
     if (rr)
